@@ -189,6 +189,10 @@ fn wf_g(st: &MqttState, g: &Ghost) -> bool {
         if g.slots[i].some && (g.slots[i].pkid as usize != i || g.slots[i].qos == 0) {
             return false;
         }
+        // an id is in use by at most one flow: unacknowledged publish XOR release awaiting PUBCOMP
+        if g.slots[i].some && g.rel[i] {
+            return false;
+        }
         i += 1;
     }
     if g.inflight as usize != held_count(g) {
@@ -232,6 +236,7 @@ const NONE: usize = usize::MAX;
 // ------------------------------------------------------------------------------------------
 // next_pkid: function contract, all max_inflight >= 1 (no table involved) — complete
 // ------------------------------------------------------------------------------------------
+// @harness props=C07 tier=quick kind=complete bound="none: all max_inflight >= 1, all last_pkid < max_inflight (loop-free)" fn=MqttState::next_pkid
 #[kani::proof]
 fn v4_next_pkid_contract() {
     // state without tables: next_pkid touches last_pkid / max_inflight only
@@ -267,6 +272,7 @@ fn v4_next_pkid_contract() {
 // ------------------------------------------------------------------------------------------
 // PUBACK
 // ------------------------------------------------------------------------------------------
+// @steps name=v4_puback props=C02,C07,C10 fn=MqttState::handle_incoming_puback call=puback_step
 fn puback_step(n: usize) {
     let mut st = any_state(n, 0);
     let g = ghost(&st);
@@ -314,20 +320,445 @@ fn puback_step(n: usize) {
     core::mem::forget(st);
 }
 
-#[kani::proof]
-#[kani::unwind(@UNWIND@)]
-fn v4_puback_step_n1() {
-    puback_step(1);
+
+// ------------------------------------------------------------------------------------------
+// PUBREC
+// ------------------------------------------------------------------------------------------
+// @steps name=v4_pubrec props=C02,C07,C10 fn=MqttState::handle_incoming_pubrec call=pubrec_step
+fn pubrec_step(n: usize) {
+    let mut st = any_state(n, 0);
+    let g = ghost(&st);
+    kani::assume(wf_g(&st, &g));
+    let pkid: u16 = kani::any();
+    let r = st.handle_incoming_pubrec(&PubRec { pkid });
+    let h = ghost(&st);
+    let k = pkid as usize;
+    match &r {
+        Ok(out) => {
+            assert!(k >= 1 && k <= n && g.slots[k].some, "C10 pubrec.ok_only_if_solicited");
+            assert!(matches!(out, Some(Packet::PubRel(x)) if x.pkid == pkid), "C10 pubrec.answers_with_pubrel_same_id");
+            assert!(!h.slots[k].some && h.rel[k], "C02 pubrec.moves_slot_to_release_pending");
+            assert!(h.inflight == g.inflight, "C07 pubrec.inflight_same");
+            assert!(h.collision == g.collision, "C02 pubrec.collision_kept");
+            assert!(h.events == g.events + 1, "C10 pubrec.one_event");
+            assert!(matches!(st.events.back(), Some(Event::Outgoing(Outgoing::PubRel(x))) if *x == pkid), "C10 pubrec.event_kind");
+            assert!(frame(&g, &h, k, k), "C02 pubrec.frame");
+        }
+        Err(e) => {
+            assert!(matches!(e, StateError::Unsolicited(x) if *x == pkid), "C10 pubrec.err_kind");
+            assert!(k > n || !g.slots[k].some, "C10 pubrec.err_only_if_unsolicited");
+            assert!(frame(&g, &h, NONE, NONE), "C10 pubrec.err_frame");
+            assert!(h.inflight == g.inflight && h.collision == g.collision, "C10 pubrec.err_bookkeeping");
+            assert!(h.events == g.events, "C10 pubrec.err_no_event");
+        }
+    }
+    assert!(wf_g(&st, &h), "C02 pubrec.wf");
+    kani::cover!(r.is_ok(), "solicited pubrec");
+    kani::cover!(r.is_err() && k > n, "pubrec above table");
+    core::mem::forget(r);
+    core::mem::forget(st);
 }
 
-#[kani::proof]
-#[kani::unwind(@UNWIND@)]
-fn v4_puback_step_n2() {
-    puback_step(2);
+// ------------------------------------------------------------------------------------------
+// PUBCOMP
+// ------------------------------------------------------------------------------------------
+// @steps name=v4_pubcomp props=C02,C07,C10 fn=MqttState::handle_incoming_pubcomp call=pubcomp_step
+fn pubcomp_step(n: usize) {
+    let mut st = any_state(n, 0);
+    let g = ghost(&st);
+    kani::assume(wf_g(&st, &g));
+    let pkid: u16 = kani::any();
+    let r = st.handle_incoming_pubcomp(&PubComp { pkid });
+    let h = ghost(&st);
+    let k = pkid as usize;
+    match &r {
+        Ok(out) => {
+            assert!(k >= 1 && k <= n && g.rel[k], "C10 pubcomp.ok_only_if_solicited");
+            assert!(!h.rel[k], "C02 pubcomp.release_completed");
+            match out {
+                None => {
+                    assert!(h.inflight == g.inflight - 1, "C07 pubcomp.inflight_dec");
+                    assert!(h.collision == g.collision, "C02 pubcomp.collision_kept");
+                    assert!(h.events == g.events, "C10 pubcomp.no_event_without_write");
+                    assert!(frame(&g, &h, NONE, k), "C02 pubcomp.frame");
+                }
+                Some(Packet::Publish(p)) => {
+                    assert!(g.collision.some && summ_p(p) == g.collision, "C02 pubcomp.released_is_the_parked_one");
+                    assert!(p.pkid == pkid, "C07 pubcomp.released_id");
+                    // the publish that is now put on the wire must be tracked like any other unacknowledged publish
+                    assert!(h.slots[k] == g.collision, "C02,C07 pubcomp.released_recorded");
+                    assert!(!h.collision.some, "C07 pubcomp.collision_cleared");
+                    assert!(h.inflight == g.inflight, "C07 pubcomp.inflight_counts_released");
+                    assert!(h.events == g.events + 1, "C10 pubcomp.one_event");
+                    assert!(matches!(st.events.back(), Some(Event::Outgoing(Outgoing::Publish(x))) if *x == pkid), "C10 pubcomp.event_kind");
+                    assert!(frame(&g, &h, k, k), "C02 pubcomp.frame_released");
+                    kani::cover!(true, "collision released by pubcomp");
+                }
+                Some(_) => assert!(false, "C10 pubcomp.unexpected_packet"),
+            }
+        }
+        Err(e) => {
+            assert!(matches!(e, StateError::Unsolicited(x) if *x == pkid), "C10 pubcomp.err_kind");
+            assert!(k > n || !g.rel[k], "C10 pubcomp.err_only_if_unsolicited");
+            assert!(frame(&g, &h, NONE, NONE), "C10 pubcomp.err_frame");
+            assert!(h.inflight == g.inflight && h.collision == g.collision, "C02,C10 pubcomp.err_bookkeeping");
+            assert!(h.events == g.events, "C10 pubcomp.err_no_event");
+        }
+    }
+    assert!(wf_g(&st, &h), "C02,C07 pubcomp.wf");
+    kani::cover!(r.is_err() && k > n, "pubcomp above table");
+    core::mem::forget(r);
+    core::mem::forget(st);
 }
 
+// ------------------------------------------------------------------------------------------
+// outgoing publish
+// ------------------------------------------------------------------------------------------
+// @steps name=v4_outgoing_publish props=C02,C07,C10 fn=MqttState::outgoing_publish call=outgoing_publish_step ns=quick:1,2;thorough:1,2,3,4
+fn outgoing_publish_step(n: usize) {
+    let mut st = any_state(n, 0);
+    let g = ghost(&st);
+    kani::assume(wf_g(&st, &g));
+    let publish = any_publish();
+    let input = summ_p(&publish);
+    let r = st.outgoing_publish(publish);
+    let h = ghost(&st);
+    match &r {
+        Ok(Some(Packet::Publish(p))) => {
+            let o = summ_p(p);
+            assert!(o.qos == input.qos && o.dup == input.dup && o.retain == input.retain, "C02 outgoing_publish.content_kept");
+            assert!(h.events == g.events + 1, "C10 outgoing_publish.one_event");
+            assert!(matches!(st.events.back(), Some(Event::Outgoing(Outgoing::Publish(x))) if *x == p.pkid), "C10 outgoing_publish.event_kind");
+            if input.qos == 0 {
+                assert!(frame(&g, &h, NONE, NONE) && h.inflight == g.inflight && h.collision == g.collision, "C07 outgoing_publish.qos0_untracked");
+            } else {
+                let k = p.pkid as usize;
+                assert!(k >= 1 && k <= n, "C07 outgoing_publish.id_in_range");
+                assert!(input.pkid == 0 || input.pkid == p.pkid, "C11 outgoing_publish.keeps_given_id");
+                assert!(input.pkid != 0 || p.pkid == g.last_pkid + 1, "C07 outgoing_publish.next_id");
+                assert!(!g.slots[k].some, "C07 outgoing_publish.id_not_held_by_unacked_publish");
+                assert!(!g.rel[k], "C07 outgoing_publish.id_not_awaiting_pubcomp");
+                assert!(h.slots[k] == o, "C02 outgoing_publish.recorded_before_sent");
+                assert!(h.inflight == g.inflight + 1, "C07 outgoing_publish.inflight_inc");
+                assert!(h.collision == g.collision, "C02 outgoing_publish.collision_kept");
+                assert!(frame(&g, &h, k, NONE), "C02 outgoing_publish.frame");
+            }
+        }
+        Ok(None) => {
+            // parked: the id is held by an unacknowledged publish
+            assert!(input.qos != 0, "C10 outgoing_publish.qos0_always_sent");
+            assert!(h.collision.some, "C02 outgoing_publish.parked_is_held");
+            let k = h.collision.pkid as usize;
+            assert!(k >= 1 && k <= n && g.slots[k].some, "C07 outgoing_publish.collision_only_if_id_held");
+            assert!(h.collision.qos == input.qos && h.collision.dup == input.dup && h.collision.retain == input.retain, "C02 outgoing_publish.parked_content");
+            assert!(!g.collision.some, "C02 outgoing_publish.previous_parked_publish_not_overwritten");
+            assert!(frame(&g, &h, NONE, NONE) && h.inflight == g.inflight, "C02 outgoing_publish.parked_frame");
+            assert!(h.events == g.events + 1, "C10 outgoing_publish.await_event");
+            assert!(matches!(st.events.back(), Some(Event::Outgoing(Outgoing::AwaitAck(x))) if *x as usize == k), "C10 outgoing_publish.await_event_kind");
+            kani::cover!(true, "collision parked");
+        }
+        Ok(Some(_)) => assert!(false, "C10 outgoing_publish.unexpected_packet"),
+        Err(e) => {
+            // only a caller-chosen id outside the table is refused
+            assert!(input.qos != 0 && input.pkid as usize > n, "C02 outgoing_publish.err_only_for_foreign_id");
+            assert!(matches!(e, StateError::Unsolicited(x) if *x == input.pkid), "C10 outgoing_publish.err_kind");
+            assert!(frame(&g, &h, NONE, NONE) && h.inflight == g.inflight && h.collision == g.collision, "C02 outgoing_publish.err_frame");
+        }
+    }
+    assert!(wf_g(&st, &h), "C02,C07 outgoing_publish.wf");
+    kani::cover!(matches!(&r, Ok(Some(_))) && input.qos != 0 && input.pkid == 0 && g.last_pkid as usize + 1 == n, "id wrap-around");
+    core::mem::forget(r);
+    core::mem::forget(st);
+}
+
+// ------------------------------------------------------------------------------------------
+// release replay (outgoing_pubrel / save_pubrel)
+// ------------------------------------------------------------------------------------------
+// @steps name=v4_outgoing_pubrel props=C02,C07 fn=MqttState::outgoing_pubrel call=outgoing_pubrel_step
+fn outgoing_pubrel_step(n: usize) {
+    let mut st = any_state(n, 0);
+    let g = ghost(&st);
+    kani::assume(wf_g(&st, &g));
+    let pkid: u16 = kani::any();
+    // precondition established by clean#post: a carried-over release has a table id that is not pending now
+    kani::assume(pkid as usize <= n);
+    kani::assume(pkid == 0 || (!g.rel[pkid as usize] && !g.slots[pkid as usize].some));
+    kani::assume(pkid != 0 || (!g.rel[g.last_pkid as usize + 1] && !g.slots[g.last_pkid as usize + 1].some));
+    let r = st.outgoing_pubrel(PubRel { pkid });
+    let h = ghost(&st);
+    match &r {
+        Ok(Some(Packet::PubRel(p))) => {
+            let k = p.pkid as usize;
+            assert!(k >= 1 && k <= n, "C07 outgoing_pubrel.id_in_range");
+            assert!(pkid == 0 || p.pkid == pkid, "C02 outgoing_pubrel.keeps_id");
+            assert!(h.rel[k], "C02 outgoing_pubrel.release_pending_recorded");
+            assert!(h.inflight == g.inflight + 1, "C07 outgoing_pubrel.inflight_inc");
+            assert!(frame(&g, &h, NONE, k) && h.collision == g.collision, "C02 outgoing_pubrel.frame");
+            assert!(h.events == g.events + 1, "C10 outgoing_pubrel.one_event");
+            assert!(matches!(st.events.back(), Some(Event::Outgoing(Outgoing::PubRel(x))) if *x == p.pkid), "C10 outgoing_pubrel.event_kind");
+        }
+        _ => assert!(false, "C02 outgoing_pubrel.always_sent"),
+    }
+    assert!(wf_g(&st, &h), "C02 outgoing_pubrel.wf");
+    core::mem::forget(r);
+    core::mem::forget(st);
+}
+
+// ------------------------------------------------------------------------------------------
+// clean(): everything unacknowledged is handed back for retransmission, in the documented order
+// ------------------------------------------------------------------------------------------
+// (content and order of the returned requests are checked by the native bounded stand-in
+//  native/rumqttc/state_v4.rs: CBMC 6.11 recurses to stack overflow / OOM when the elements of the
+//  returned Vec<Request> are inspected — measured)
+// @steps name=v4_clean props=C02,C07 fn=MqttState::clean call=clean_step
+fn clean_step(n: usize) {
+    let mut st = any_state(n, 2);
+    let g = ghost(&st);
+    kani::assume(wf_g(&st, &g));
+    let pending = st.clean();
+    let h = ghost(&st);
+    assert!(pending.len() == g.inflight as usize, "C02,C07 clean.count_matches_inflight");
+    let mut j = 0usize;
+    while j < TMAX {
+        if j > n {
+            break;
+        }
+        assert!(!h.slots[j].some && !h.rel[j], "C02 clean.tables_emptied");
+        j += 1;
+    }
+    assert!(h.inflight == 0, "C07 clean.inflight_reset");
+    assert!(h.collision == g.collision, "C02 clean.parked_publish_not_dropped");
+    assert!(!st.await_pingresp && st.collision_ping_count == 0, "C18 clean.ping_state_reset");
+    assert!(st.incoming_pub.count_ones(..) == 0, "C10 clean.incoming_qos2_ids_forgotten");
+    assert!(h.last_pkid == g.last_pkid, "C07 clean.pkid_counter_kept");
+    kani::cover!(pending.len() == n, "all ids pending");
+    core::mem::forget(pending);
+    core::mem::forget(st);
+}
+
+// ------------------------------------------------------------------------------------------
+// inbound QoS flows (C10)
+// ------------------------------------------------------------------------------------------
+pub const ICAP: usize = 8;
+
+// @harness props=C10 tier=quick kind=bounded bound="incoming QoS2 id table of 8 bits (real: 65536, see v4_new_tables); ids of QoS0/1 publishes full u16; table size max_inflight=1" fn=MqttState::handle_incoming_publish
 #[kani::proof]
 #[kani::unwind(@UNWIND@)]
-fn v4_puback_step_n3() {
-    puback_step(3);
+fn v4_incoming_publish() {
+    let mut st = any_state(1, ICAP);
+    let g = ghost(&st);
+    let publish = any_publish();
+    let qos = publish.qos;
+    let pkid = publish.pkid;
+    kani::assume(qos != QoS::ExactlyOnce || (pkid as usize) < ICAP);
+    let manual = st.manual_acks;
+    let was_set = (pkid as usize) < ICAP && st.incoming_pub.contains(pkid as usize);
+    let ones = st.incoming_pub.count_ones(..);
+    let r = st.handle_incoming_publish(&publish);
+    let h = ghost(&st);
+    match &r {
+        Ok(out) => {
+            match qos {
+                QoS::AtMostOnce => {
+                    assert!(out.is_none(), "C10 incoming_publish.qos0_no_reply");
+                    assert!(h.events == g.events, "C10 incoming_publish.qos0_no_event");
+                }
+                QoS::AtLeastOnce => {
+                    if manual {
+                        assert!(out.is_none() && h.events == g.events, "C10 incoming_publish.manual_ack_sends_nothing");
+                    } else {
+                        assert!(matches!(out, Some(Packet::PubAck(a)) if a.pkid == pkid), "C10 incoming_publish.qos1_puback_same_id");
+                        assert!(h.events == g.events + 1, "C10 incoming_publish.qos1_one_event");
+                        assert!(matches!(st.events.back(), Some(Event::Outgoing(Outgoing::PubAck(x))) if *x == pkid), "C10 incoming_publish.qos1_event_kind");
+                    }
+                }
+                QoS::ExactlyOnce => {
+                    assert!(st.incoming_pub.contains(pkid as usize), "C10 incoming_publish.qos2_id_remembered");
+                    assert!(st.incoming_pub.count_ones(..) == ones + if was_set { 0 } else { 1 }, "C10 incoming_publish.qos2_only_that_id");
+                    if manual {
+                        assert!(out.is_none() && h.events == g.events, "C10 incoming_publish.manual_ack_sends_nothing_qos2");
+                    } else {
+                        assert!(matches!(out, Some(Packet::PubRec(a)) if a.pkid == pkid), "C10 incoming_publish.qos2_pubrec_same_id");
+                        assert!(h.events == g.events + 1, "C10 incoming_publish.qos2_one_event");
+                        assert!(matches!(st.events.back(), Some(Event::Outgoing(Outgoing::PubRec(x))) if *x == pkid), "C10 incoming_publish.qos2_event_kind");
+                    }
+                }
+            }
+            if qos != QoS::ExactlyOnce {
+                assert!(st.incoming_pub.count_ones(..) == ones, "C10 incoming_publish.id_table_untouched");
+            }
+        }
+        Err(_) => assert!(false, "C10 incoming_publish.never_errs"),
+    }
+    assert!(frame(&g, &h, NONE, NONE) && h.inflight == g.inflight && h.collision == g.collision, "C10 incoming_publish.outgoing_bookkeeping_untouched");
+    kani::cover!(qos == QoS::ExactlyOnce && !manual, "qos2 auto ack");
+    kani::cover!(qos == QoS::AtLeastOnce && manual, "qos1 manual ack");
+    core::mem::forget(r);
+    core::mem::forget(st);
+}
+
+// @harness props=C10 tier=quick kind=bounded bound="incoming QoS2 id table of 8 bits; PUBREL ids full u16 (ids >= 8 are unsolicited)" fn=MqttState::handle_incoming_pubrel
+#[kani::proof]
+#[kani::unwind(@UNWIND@)]
+fn v4_incoming_pubrel() {
+    let mut st = any_state(1, ICAP);
+    let g = ghost(&st);
+    let pkid: u16 = kani::any();
+    let was_set = (pkid as usize) < ICAP && st.incoming_pub.contains(pkid as usize);
+    let ones = st.incoming_pub.count_ones(..);
+    let r = st.handle_incoming_pubrel(&PubRel { pkid });
+    let h = ghost(&st);
+    match &r {
+        Ok(out) => {
+            assert!(was_set, "C10 pubrel.ok_only_for_known_id");
+            assert!(matches!(out, Some(Packet::PubComp(a)) if a.pkid == pkid), "C10 pubrel.pubcomp_same_id");
+            assert!(!st.incoming_pub.contains(pkid as usize) && st.incoming_pub.count_ones(..) == ones - 1, "C10 pubrel.id_forgotten_only_that");
+            assert!(h.events == g.events + 1, "C10 pubrel.one_event");
+            assert!(matches!(st.events.back(), Some(Event::Outgoing(Outgoing::PubComp(x))) if *x == pkid), "C10 pubrel.event_kind");
+        }
+        Err(e) => {
+            assert!(!was_set, "C10 pubrel.err_only_if_unknown");
+            assert!(matches!(e, StateError::Unsolicited(x) if *x == pkid), "C10 pubrel.err_kind");
+            assert!(st.incoming_pub.count_ones(..) == ones && h.events == g.events, "C10 pubrel.err_state_unchanged");
+        }
+    }
+    assert!(frame(&g, &h, NONE, NONE) && h.inflight == g.inflight && h.collision == g.collision, "C10 pubrel.outgoing_bookkeeping_untouched");
+    kani::cover!(r.is_ok(), "known release");
+    kani::cover!(r.is_err() && pkid as usize >= ICAP, "release above table");
+    core::mem::forget(r);
+    core::mem::forget(st);
+}
+
+// @harness props=C10 tier=quick kind=complete bound="none (loop-free, ids full u16)" fn=MqttState::outgoing_puback+outgoing_pubrec+outgoing_disconnect
+#[kani::proof]
+#[kani::unwind(@UNWIND@)]
+fn v4_outgoing_acks() {
+    let mut st = any_state(1, 0);
+    let g = ghost(&st);
+    let pkid: u16 = kani::any();
+    let which: u8 = kani::any();
+    kani::assume(which < 3);
+    let r = if which == 0 {
+        st.outgoing_puback(PubAck { pkid })
+    } else if which == 1 {
+        st.outgoing_pubrec(PubRec { pkid })
+    } else {
+        st.outgoing_disconnect()
+    };
+    let h = ghost(&st);
+    assert!(h.events == g.events + 1, "C10 outgoing_acks.one_event");
+    match (&r, which) {
+        (Ok(Some(Packet::PubAck(a))), 0) => {
+            assert!(a.pkid == pkid && matches!(st.events.back(), Some(Event::Outgoing(Outgoing::PubAck(x))) if *x == pkid), "C10 outgoing_acks.puback");
+        }
+        (Ok(Some(Packet::PubRec(a))), 1) => {
+            assert!(a.pkid == pkid && matches!(st.events.back(), Some(Event::Outgoing(Outgoing::PubRec(x))) if *x == pkid), "C10 outgoing_acks.pubrec");
+        }
+        (Ok(Some(Packet::Disconnect)), 2) => {
+            assert!(matches!(st.events.back(), Some(Event::Outgoing(Outgoing::Disconnect))), "C10 outgoing_acks.disconnect");
+        }
+        _ => assert!(false, "C10 outgoing_acks.kind"),
+    }
+    assert!(frame(&g, &h, NONE, NONE) && h.inflight == g.inflight && h.collision == g.collision, "C10 outgoing_acks.frame");
+    core::mem::forget(r);
+    core::mem::forget(st);
+}
+
+// ------------------------------------------------------------------------------------------
+// subscribe / unsubscribe ids (C07)
+// ------------------------------------------------------------------------------------------
+// @harness props=C07,C10 tier=quick kind=bounded bound="one filter with empty path; table size max_inflight=2; last_pkid full domain under wf" fn=MqttState::outgoing_subscribe+outgoing_unsubscribe
+#[kani::proof]
+#[kani::unwind(@UNWIND@)]
+fn v4_outgoing_sub_unsub() {
+    let mut st = any_state(2, 0);
+    let g = ghost(&st);
+    kani::assume(wf_g(&st, &g));
+    let which: bool = kani::any();
+    let empty: bool = kani::any();
+    let r = if which {
+        let mut filters = Vec::with_capacity(1);
+        if !empty {
+            filters.push(SubscribeFilter { path: String::new(), qos: any_qos() });
+        }
+        st.outgoing_subscribe(Subscribe { pkid: kani::any(), filters })
+    } else {
+        let mut topics = Vec::with_capacity(1);
+        if !empty {
+            topics.push(String::new());
+        }
+        st.outgoing_unsubscribe(Unsubscribe { pkid: kani::any(), topics })
+    };
+    let h = ghost(&st);
+    match &r {
+        Ok(Some(Packet::Subscribe(s))) => {
+            assert!(which && !empty, "C10 sub.kind");
+            assert!(s.pkid >= 1 && s.pkid as usize <= 2 && s.pkid == g.last_pkid + 1, "C07 subscribe.id_in_range_and_fresh");
+            assert!(h.events == g.events + 1 && matches!(st.events.back(), Some(Event::Outgoing(Outgoing::Subscribe(x))) if *x == s.pkid), "C10 subscribe.event");
+        }
+        Ok(Some(Packet::Unsubscribe(u))) => {
+            assert!(!which, "C10 unsub.kind");
+            assert!(u.pkid >= 1 && u.pkid as usize <= 2 && u.pkid == g.last_pkid + 1, "C07 unsubscribe.id_in_range_and_fresh");
+            assert!(h.events == g.events + 1 && matches!(st.events.back(), Some(Event::Outgoing(Outgoing::Unsubscribe(x))) if *x == u.pkid), "C10 unsubscribe.event");
+        }
+        Err(e) => {
+            assert!(which && empty && matches!(e, StateError::EmptySubscription), "C10 subscribe.err_only_when_empty");
+            assert!(h.events == g.events && h.last_pkid == g.last_pkid, "C10 subscribe.err_state_unchanged");
+        }
+        _ => assert!(false, "C10 sub_unsub.unexpected"),
+    }
+    assert!(frame(&g, &h, NONE, NONE) && h.inflight == g.inflight && h.collision == g.collision, "C07 sub_unsub.frame");
+    assert!(wf_g(&st, &h), "C07 sub_unsub.wf");
+    kani::cover!(matches!(&r, Ok(Some(Packet::Subscribe(s))) if s.pkid == 2), "subscribe takes last id");
+    core::mem::forget(r);
+    core::mem::forget(st);
+}
+
+// ------------------------------------------------------------------------------------------
+// keep-alive flag protocol (C18, reduced scope: no timing)
+// ------------------------------------------------------------------------------------------
+// @harness props=C18 tier=quick kind=complete bound="none (loop-free; Instant::now stubbed)" fn=MqttState::outgoing_ping+handle_incoming_pingresp
+#[kani::proof]
+#[kani::unwind(@UNWIND@)]
+#[kani::stub(std::time::Instant::now, stub_now)]
+fn v4_ping_protocol() {
+    let mut st = any_state(1, 0);
+    let g = ghost(&st);
+    let coll = st.collision.is_some();
+    let cpc = st.collision_ping_count;
+    kani::assume(cpc < 10);
+    let awaiting = st.await_pingresp;
+    let r = st.outgoing_ping();
+    let h = ghost(&st);
+    match &r {
+        Ok(out) => {
+            assert!(!awaiting, "C18 ping.unanswered_ping_is_reported");
+            assert!(!(coll && cpc + 1 >= 2), "C18 ping.collision_timeout_reported");
+            assert!(matches!(out, Some(Packet::PingReq)), "C18 ping.sends_pingreq");
+            assert!(st.await_pingresp, "C18 ping.awaits_response");
+            assert!(h.events == g.events + 1 && matches!(st.events.back(), Some(Event::Outgoing(Outgoing::PingReq))), "C10,C18 ping.one_event");
+        }
+        Err(e) => {
+            assert!(awaiting || (coll && cpc + 1 >= 2), "C18 ping.err_only_if_unanswered_or_collision");
+            if coll && cpc + 1 >= 2 {
+                assert!(matches!(e, StateError::CollisionTimeout), "C18 ping.err_kind_collision");
+            } else {
+                assert!(matches!(e, StateError::AwaitPingResp), "C18 ping.err_kind_await");
+            }
+            assert!(h.events == g.events, "C10,C18 ping.err_no_event");
+        }
+    }
+    // a response clears the flag: ping -> pingresp -> ping never errs (without a pending collision)
+    let r2 = st.handle_incoming_pingresp();
+    assert!(matches!(&r2, Ok(None)) && !st.await_pingresp, "C18 pingresp.clears_flag");
+    if !coll {
+        let r3 = st.outgoing_ping();
+        assert!(matches!(&r3, Ok(Some(Packet::PingReq))), "C18 ping.no_false_alarm_when_answered");
+        core::mem::forget(r3);
+    }
+    assert!(frame(&g, &ghost(&st), NONE, NONE), "C18 ping.frame");
+    kani::cover!(r.is_err() && awaiting, "second unanswered interval");
+    core::mem::forget(r);
+    core::mem::forget(r2);
+    core::mem::forget(st);
 }
